@@ -613,7 +613,7 @@ pub open spec fn kc_pre(x: KCtx, maps: Seq<SparseExpansionMap>, ncols1: int) -> 
     &&& maps_match(x.cs, maps)
 }
 
-//@fn file=src/solver/core/kktsolvers/direct/quasidef/kkt_assembly.rs name=_kkt_assemble_colcounts as=kkt_count_cone_loop rules=R1,R3 from="let mut pcol = m + n;" to="for (i, cone) in cones.iter().enumerate()" header="fn _kkt_assemble_colcounts<T: FloatT>(K: &mut CscMatrix<T>, cones: &CompositeCone<T>, map: &LDLDataMap, shape: MatrixTriangle, m: usize, n: usize)"
+//@fn file=src/solver/core/kktsolvers/direct/quasidef/kkt_assembly.rs name=_kkt_assemble_colcounts as=kkt_count_cone_loop rules=R1,R3 from="let mut pcol =" to="for (i, cone) in cones.iter().enumerate()" header="fn _kkt_assemble_colcounts<T: FloatT>(K: &mut CscMatrix<T>, cones: &CompositeCone<T>, map: &LDLDataMap, shape: MatrixTriangle, m: usize, n: usize)"
 //@contract
     requires
         ({ let x = KCtx { cs: cones.cones@, rng: cones.rng_cones@, shape: shape, n: n as int, mn: m + n };
@@ -1262,7 +1262,7 @@ pub proof fn lemma_counts_give_cone_pre(x: KCtx, Kc: CscMatrix<F>, Kp: CscMatrix
     }
 }
 
-//@fn file=src/solver/core/kktsolvers/direct/quasidef/kkt_assembly.rs name=_kkt_assemble_fill as=kkt_fill_cone_loop rules=R1,R3,R15r:map.Hsblocks from="let mut pcol = m + n;" to="for (i, cone) in cones.iter().enumerate()" header="fn _kkt_assemble_fill<T: FloatT>(K: &mut CscMatrix<T>, cones: &CompositeCone<T>, map: &mut LDLDataMap, shape: MatrixTriangle, m: usize, n: usize)"
+//@fn file=src/solver/core/kktsolvers/direct/quasidef/kkt_assembly.rs name=_kkt_assemble_fill as=kkt_fill_cone_loop rules=R1,R3,R15r:map.Hsblocks from="let mut pcol =" to="for (i, cone) in cones.iter().enumerate()" header="fn _kkt_assemble_fill<T: FloatT>(K: &mut CscMatrix<T>, cones: &CompositeCone<T>, map: &mut LDLDataMap, shape: MatrixTriangle, m: usize, n: usize)"
 //@contract
     requires
         ({ let x = KCtx { cs: cones.cones@, rng: cones.rng_cones@, shape: shape, n: n as int, mn: m + n };
@@ -1352,7 +1352,7 @@ it
                 }
                 assert(*thismap == maps0[nsparse(x.cs, gi)]);
             }
-//@after "pcol += thismap.pdim();"
+//@after "sc.csc_fill_sparsecone("
             proof { fm = fm.push(*thismap); }
 //@body_end 1
         proof {
